@@ -32,7 +32,7 @@ CEmpty == [
   \* executor
   scheduled |-> {}, polls |-> {}, done |-> {}, results |-> <<>>, fdropped |-> {}, needOf |-> <<>>, execGone |-> FALSE,
   \* loop signal
-  runBegan |-> FALSE, runRet |-> 0, iters |-> <<>>, blockOut |-> -2, stopCalls |-> {},
+  runBegan |-> FALSE, runBeganAt |-> 0, runRet |-> 0, iters |-> <<>>, blockOut |-> -2, stopCalls |-> {}, blockNeed |-> -1,
   loopScript |-> <<>>, sawRemove |-> FALSE, enabledNow |-> TRUE,
   stuck |-> FALSE, loopStuck |-> FALSE, occupied |-> -1, idleElapsed |-> -1, idleTimeout |-> -1,
   viol |-> {}
@@ -77,7 +77,7 @@ CUpd(sh0, ev) ==
                 LET cs == {c \in sh.calls : c.t = ev.t /\ c.op = "ping" /\ c.ret = 0} IN
                 [sh EXCEPT !.wroteAt = @ \cup {<<c.t, c.n, i>> : c \in cs}]
            [] ev.l = "ping.drain.after" -> [sh EXCEPT !.lastDrainAt = i]
-           [] ev.l = "loop.run.before_stop_check" \/ ev.l = "blockon.before_stop_check" -> [sh EXCEPT !.runBegan = TRUE]
+           [] ev.l = "loop.run.before_stop_check" \/ ev.l = "blockon.before_stop_check" -> [sh EXCEPT !.runBegan = TRUE, !.runBeganAt = IF sh.runBegan THEN @ ELSE i]
            [] OTHER -> sh
     [] ev.e = "cb" ->
          CASE sh.kind = "ping" -> [sh EXCEPT !.cbIdx = Append(@, i), !.cbDrain = Append(@, IF sh.lastDrainAt = 0 THEN i ELSE sh.lastDrainAt),
@@ -89,6 +89,7 @@ CUpd(sh0, ev) ==
     [] ev.e = "lcall" ->
          CASE ev.op \in {"dispatch", "idle_wait"} -> [sh EXCEPT !.inDisp = TRUE, !.cbThisDisp = 0, !.lastDrainAt = 0]
            [] ev.op = "schedule" -> [sh EXCEPT !.scheduled = @ \cup {<<ev.f, i>>}]
+           [] ev.op = "block_on" -> [sh EXCEPT !.blockNeed = ev.need, !.scheduled = @ \cup {<<0, i>>}]
            [] ev.op = "disable" -> [sh EXCEPT !.enabledNow = FALSE]
            [] ev.op = "enable" -> [sh EXCEPT !.enabledNow = TRUE]
            [] ev.op = "remove" -> [sh EXCEPT !.execGone = sh.kind = "exec"]
@@ -185,7 +186,8 @@ ExecEndViol(sh) ==
 
 \* C11 ---------------------------------------------------------------------
 SigEndViol(sh) ==
-  LET stops == {c \in CallsOf(sh, "stop") : Returned(c) /\ sh.runBegan}
+  LET \* stop requests issued after run()/block_on() has begun (= after its own reset of the stop flag)
+      stops == {c \in CallsOf(sh, "stop") : Returned(c) /\ sh.runBegan /\ c.at > sh.runBeganAt}
       wakeups == {c \in CallsOf(sh, "wakeup") : Returned(c)}
       \* a stop() that returned, followed by a wakeup() that began after it
       pair == \E s \in stops, w \in wakeups : w.at > s.ret
@@ -193,7 +195,19 @@ SigEndViol(sh) ==
                                  \A y \in {w.ret : w \in {v \in wakeups : \E s \in stops : v.at > s.ret}} : x <= y ELSE 0
       itersAfter == Cardinality({k \in DOMAIN sh.iters : sh.iters[k] > pairEnd})
       usesRun == \E k \in DOMAIN sh.loopScript : sh.loopScript[k] = "run"
-  IN CIf(usesRun /\ pair /\ (sh.loopStuck \/ sh.runRet = 0), {<<"C11", "run_did_not_return_after_stop_and_wakeup">>})
+      usesBlockOn == sh.blockNeed >= 0
+      wakes == {c \in CallsOf(sh, "wake") : Returned(c) /\ c.r = "ok"}
+      \* wakes that were issued before any stop() began
+      firstStop == IF sh.stopCalls = {} THEN 1000000000 ELSE CHOOSE x \in sh.stopCalls : \A y \in sh.stopCalls : x <= y
+      wakesBeforeStop == {c \in wakes : c.ret < firstStop}
+      completedPolls == {p \in sh.polls : p[3] >= sh.blockNeed}
+  IN CIf(usesBlockOn /\ sh.stopCalls = {} /\ Cardinality(wakes) >= sh.blockNeed /\ (sh.loopStuck \/ sh.blockOut # 0),
+         {<<"C11", "block_on_did_not_complete_after_wakes">>})
+     \cup CIf(usesBlockOn /\ sh.blockOut = 0 /\ completedPolls = {}, {<<"C11", "block_on_returned_output_of_incomplete_future">>})
+     \cup CIf(usesBlockOn /\ sh.blockOut = -1 /\ sh.stopCalls = {}, {<<"C11", "block_on_returned_none_without_stop">>})
+     \cup CIf(usesBlockOn /\ sh.polls = {} /\ sh.runRet # 0 /\ sh.stopCalls = {}, {<<"C11", "block_on_never_polled_the_future">>})
+     \cup CIf(usesBlockOn /\ sh.stopCalls # {} /\ pair /\ sh.loopStuck, {<<"C11", "block_on_did_not_return_after_stop_and_wakeup">>})
+     \cup CIf(usesRun /\ pair /\ (sh.loopStuck \/ sh.runRet = 0), {<<"C11", "run_did_not_return_after_stop_and_wakeup">>})
      \cup CIf(usesRun /\ pair /\ sh.runRet # 0 /\ itersAfter > 1, {<<"C11", "more_than_one_iteration_after_stop">>})
      \cup CIf(usesRun /\ sh.runRet # 0 /\ sh.stopCalls = {}, {<<"C11", "run_returned_without_stop">>})
 
